@@ -47,6 +47,9 @@ class LinEmit(C.Emit):
                     return f"(ops.div {a} {b})", "T"
                 if op in ("<", ">"):
                     return f"decide ({a} {op} {b})", "Bool"
+                if op in (">=", "<="):
+                    # on a total order (integers; floats that are not NaN): `a >= b` is `!(a < b)`
+                    return f"(!decide ({a} {'<' if op == '>=' else '>'} {b}))", "Bool"
                 if op in ("==", "!="):
                     return f"decide ({a} {'=' if op == '==' else '≠'} {b})", "Bool"
                 raise Unsupported(f"operator {op} on the element type")
